@@ -24,9 +24,9 @@ func (p *c10) Exhaustive() bool { return true }
 
 var (
 	c10Kinds   = []string{"include", "embed"}
-	c10Modes   = []string{"plain", "with", "only", "with+only", "with-override", "with-variable+only", "with-variable"}
+	c10Modes   = []string{"plain", "with", "only", "with+only", "with-override", "with-variable+only", "with-variable", "with-conditional", "with-conditional+only"}
 	c10Sites   = []string{"top", "loop", "block-of-extending-host", "macro", "if", "host-block-same-name"}
-	c10Targets = []string{"plain", "sets-colliding", "sets-fresh", "extends-base", "extends-base-sets"}
+	c10Targets = []string{"plain", "sets-colliding", "sets-fresh", "extends-base", "extends-base-sets", "blocks-from-use-only"}
 	c10Pool    = []string{"x", "y", "w", "z"}
 )
 
@@ -72,6 +72,14 @@ func c10target(ts map[string]*gen.Template, name string, target int, callHost bo
 		return &gen.NBlock{Name: bn, Body: append([]gen.Node{tx("{" + tag + "}")}, b...)}
 	}
 	switch target {
+	case 5:
+		// no block of its own, no parent: the blocks come from a library and are printed through block(); the
+		// overrides of an embed rank above them all the same
+		ts[name+"lib"] = tpl(name+"lib", blk("ba", name+"lib.ba"), blk("bb", name+"lib.bb"))
+		body := []gen.Node{&gen.NUse{Tpl: str(name + "lib")}, tx("T(")}
+		body = append(body, c10probe(name+".top")...)
+		body = append(body, pr(&gen.EBlockFn{Name: str("ba")}), tx("/"), pr(&gen.EBlockFn{Name: str("bb")}), tx(")"))
+		ts[name] = tpl(name, body...)
 	case 3, 4:
 		var in []gen.Node
 		if target == 4 {
@@ -116,6 +124,10 @@ func c10construct(c c10cfg, tplName string, over int, tag string) gen.Node {
 		only = true
 	case 6:
 		with = nm("vars")
+	case 7, 8:
+		// the hash is chosen by a conditional written without parentheses
+		with = &gen.ETern{C: &gen.EBin{Op: "==", L: nm("x"), R: str("hx")}, A: &gen.EHash{Keys: []gen.Expr{nm("w")}, Vals: []gen.Expr{str("cw-" + tag)}}, B: &gen.EHash{Keys: []gen.Expr{nm("w")}, Vals: []gen.Expr{str("other")}}}
+		only = c.mode == 8
 	}
 	if c.kind == 0 {
 		return &gen.NInclude{Tpl: str(tplName), With: with, Only: only}
@@ -139,7 +151,7 @@ func (p *c10) buildCfg(c c10cfg) *Program {
 	ts := map[string]*gen.Template{}
 	// the host's import alias reaches the target when the host has one (not in sites 2 and 3) and the construct
 	// passes the host's variables on (no 'only')
-	callHost := c.site != 2 && c.site != 3 && (c.mode == 0 || c.mode == 1 || c.mode == 4 || c.mode == 6)
+	callHost := c.site != 2 && c.site != 3 && (c.mode == 0 || c.mode == 1 || c.mode == 4 || c.mode == 6 || c.mode == 7)
 	c10target(ts, "tgt", c.target, callHost)
 	var site []gen.Node
 	site = append(site, c10construct(c, "tgt", c.over, "1"))
@@ -236,12 +248,15 @@ func (p *c10) build(i int) (*Program, string, bool) {
 		if c.site == 3 && c.mode >= 5 {
 			c.mode = 3
 		}
+		if c.target == 5 && c.kind == 0 {
+			c.target = 0 // (a template that gets its blocks from use alone is only comparable when it is embedded)
+		}
 		collision := c.target == 1 || c.target == 4 || c.site == 2 || c.site == 5 || c.mode == 4 || c.site == 1
 		return p.buildCfg(c), c.String(), collision
 	}
 	// random: include-in-embed-in-include chains
 	r := gen.Rng(p.seed, "c10", i)
-	c := c10cfg{kind: r.Intn(2), mode: r.Intn(7), site: []int{0, 1, 2, 4, 5}[r.Intn(5)], target: r.Intn(5), over: r.Intn(4), twice: r.Intn(2)}
+	c := c10cfg{kind: r.Intn(2), mode: r.Intn(9), site: []int{0, 1, 2, 4, 5}[r.Intn(5)], target: r.Intn(5), over: r.Intn(4), twice: r.Intn(2)}
 	prog := p.buildCfg(c)
 	// the target's ba block gets a nested construct pointing at a second target
 	c2 := c10cfg{kind: r.Intn(2), mode: r.Intn(7), target: r.Intn(3), over: r.Intn(4)}
